@@ -4,6 +4,9 @@ PROPS = [json.loads(l)["id"] for l in open("properties.jsonl")]
 BASE = "cd /repo && /venv/bin/python -m pytest -ra -q -p no:cacheprovider --timeout=900 --continue-on-collection-errors"
 TECH = "contract-based deductive verification: sidecar contracts on the real functions, VCs generated from /repo's AST by pyvc, discharged by z3 (cvc5 fallback); counter-models replayed natively"
 CLAIMED = {
+ "C01": dict(text="Every Generator.visit_* and Random.* under contract is proved, for a symbolic reachable and satisfiable schema of its class and for unconstrained symbolic RNG draws (so both extremes of every draw are covered), to raise nothing and to return a value satisfying the specification function conforms; composed with the C02 verdict contract this gives validate(S, fake(S)) has no errors.",
+             note="RegexGenerator.generate is an assumed contract until C09 is built (pattern within the supported grammar is a stated precondition); stdlib random = assumed contracts; floats as reals. Six known findings (regions excluded, witnesses replayed each run). Generator.visit for custom types pending.",
+             ref="DESIGN.md 4.1"),
  "C02": dict(text="Every Validator.visit_* under contract is proved, for all schemas of its class (symbolic registry) and all Python values (symbolic object), to return no errors exactly when the value conforms to the specification function written from the statement.",
              note="Trusted: pyvc encodings; z3/cvc5; builtin contracts (isinstance, len, ==, re.search as an uninterpreted predicate, math.isclose); floats as reals+specials. Known finding: NaN in float min/max (region excluded, witness replayed each run).",
              ref="DESIGN.md 4.2"),
